@@ -539,7 +539,7 @@ pub fn cmd_explore(opt: &HashMap<String, String>) -> i32 {
 
     // C04: a second instantiation with unsized borrowed keys that alias stored keys
     if want(4) && !opt.contains_key("no-strmap") && !verdict_reached(&phases) {
-        let nk = if thorough { 6 } else { 4 };
+        let nk = if thorough { 5 } else { 4 };
         for hk in ALL_HK {
             let r = crate::strmap::explore(hk, nk, p(4));
             let mut stats = Stats::default();
@@ -829,7 +829,7 @@ pub fn cmd_replay(opt: &HashMap<String, String>) -> i32 {
             }
         }
         ("strmap", _) => {
-            for nk in [4usize, 6] {
+            for nk in [4usize, 5] {
                 let r = crate::strmap::explore(cfg.hk, nk, p(4));
                 for x in r.violations {
                     viols.push((x.rule.to_string(), x.detail));
